@@ -546,6 +546,15 @@ func c07Cases(tier string) []c07Case {
 	for _, et := range []*RType{TEnum("a", "b"), TEnum("a"), T("int"), T("string"), T("object"), TAlias("T0"), TArr(T("int")), TMap(T("string")), TMaybe(T("int"))} {
 		add(&RIDL{Name: "a.b", Members: []RMember{b[0], b[1], {Kind: "error", Name: "E", Type: et}}}, false)
 	}
+	// a non-empty anonymous struct under two type constructors, at every position (a conversion that looks one
+	// level deep is not enough for these)
+	inner := TStruct(F("name", T("string")), F("n", TMaybe(T("int"))))
+	for _, t2 := range []*RType{TArr(TArr(inner)), TArr(TMaybe(inner)), TMap(TArr(inner)), TArr(TMap(inner)), TMap(TMaybe(inner)), TMaybe(TArr(inner)), TMaybe(TMap(inner)), TMap(TMap(inner)), TArr(TArr(TArr(inner)))} {
+		add(&RIDL{Name: "a.b", Members: []RMember{b[0], {Kind: "method", Name: "M", In: TStruct(F("items", t2)), Out: TStruct()}}}, false, "nested2")
+		add(&RIDL{Name: "a.b", Members: []RMember{b[0], {Kind: "method", Name: "M", In: TStruct(), Out: TStruct(F("items", t2), F("k", T("int")))}}}, false, "nested2")
+		add(&RIDL{Name: "a.b", Members: []RMember{b[0], b[1], {Kind: "error", Name: "E", Type: TStruct(F("items", t2))}}}, false, "nested2")
+		add(&RIDL{Name: "a.b", Members: []RMember{b[0], {Kind: "type", Name: "T1", Type: TStruct(F("items", t2))}, {Kind: "method", Name: "M", In: TStruct(F("x", TAlias("T1"))), Out: TStruct(F("y", TArr(TAlias("T1"))))}}}, false, "nested2")
+	}
 	// recursive and mutually recursive aliases (legal varlink), used and unused
 	node := RMember{Kind: "type", Name: "Node", Type: TStruct(F("name", T("string")), F("children", TArr(TAlias("Node"))))}
 	nodeOpt := RMember{Kind: "type", Name: "Node", Type: TStruct(F("next", TMaybe(TAlias("Node"))))}
